@@ -14,7 +14,7 @@ use crate::util::*;
 pub const PROP: Prop = Prop {
     id: "C14",
     level: "exploration",
-    rule: "every value drawn for every type of the C04 family is serialized and compared with a shape function written from the crate documentation (an independent serde::Serializer builds a tagged tree of Serde categories; the shape function maps it to the documented S-expression); for the acceptance clause every sequence/tuple node of that tree is in turn flipped list<->vector (must deserialize to the original value), given an improper tail (each non-null atom kind; must fail with a data error) and replaced by a value of a wrong kind (string, number, char, bool, keyword, symbol, nil, bytes, float; must fail with a data error); non-trivial = at least one sequence/tuple/map/variant node below the root; distinct by digest of (type, value)",
+    rule: "every value drawn for every type of the C04 family is serialized and compared with a shape function written from the crate documentation (an independent serde::Serializer builds a tagged tree of Serde categories; the shape function maps it to the documented S-expression); for the acceptance clause every sequence/tuple node of that tree is in turn flipped list<->vector (must deserialize to the original value), given an improper tail (each non-null atom kind; must fail with a data error) and replaced by a value of a wrong kind (string, number, char, bool, keyword, symbol, nil, bytes, float; must fail with a data error); plus, serialization side only, maps whose distinct keys serialize alike (a key struct with a skipped field, an untagged enum key) and hand-written Serialize impls that emit repeated keys through serialize_entry and through serialize_key/serialize_value: one cell per entry, in order; non-trivial = at least one sequence/tuple/map/variant node below the root; distinct by digest of (type, value)",
     assumptions: &[
         "the empty list is the empty proper list, so it is not used as a 'wrong kind'",
         "tuple variants are lists headed by the variant name; only Seq and Tuple/TupleStruct nodes are flipped",
@@ -128,6 +128,103 @@ pub fn check_shape<T: FamType>(name: &'static str, x: &T) -> CaseResult {
     Ok(ev)
 }
 
+// ---- maps whose keys serialize alike (serialization side only: such keys do not round-trip)
+
+#[derive(serde::Serialize, Debug, Clone, PartialEq, Eq, PartialOrd, Ord)]
+struct Slot {
+    name: String,
+    #[serde(skip)]
+    generation: u32,
+}
+
+#[derive(serde::Serialize, Debug, Clone, PartialEq, Eq, PartialOrd, Ord)]
+#[serde(untagged)]
+enum Id {
+    Short(u8),
+    Long(u64),
+    Name(String),
+}
+
+/// A list of entries written as a Serde map, as it is (repeated keys included).
+#[derive(Debug, Clone)]
+struct Entries(Vec<(u8, i16)>);
+impl serde::Serialize for Entries {
+    fn serialize<S: serde::Serializer>(&self, ser: S) -> Result<S::Ok, S::Error> {
+        use serde::ser::SerializeMap;
+        let mut m = ser.serialize_map(Some(self.0.len()))?;
+        for (k, v) in &self.0 {
+            m.serialize_entry(k, v)?;
+        }
+        m.end()
+    }
+}
+/// The same through serialize_key / serialize_value.
+#[derive(Debug, Clone)]
+struct EntriesKv(Vec<(u8, i16)>);
+impl serde::Serialize for EntriesKv {
+    fn serialize<S: serde::Serializer>(&self, ser: S) -> Result<S::Ok, S::Error> {
+        use serde::ser::SerializeMap;
+        let mut m = ser.serialize_map(None)?;
+        for (k, v) in &self.0 {
+            m.serialize_key(k)?;
+            m.serialize_value(v)?;
+        }
+        m.end()
+    }
+}
+
+type AlikeCase = Vec<(u8, u32, i16)>;
+
+fn g_alike() -> BS<AlikeCase> {
+    use proptest::prelude::*;
+    proptest::collection::vec((0u8..4, 0u32..3, any::<i16>()), 0..6).boxed()
+}
+
+fn check_shape_only<T: serde::Serialize + std::fmt::Debug>(name: &'static str, x: &T, case: &AlikeCase) -> Result<(), Failure> {
+    let expected = Shaper::documented().shape(&doc_of(x));
+    let fail = |sig: String, msg: String| Failure::new(format!("C14 type={} {}", name, sig), msg, json!({"alike": case}));
+    let got = match to_mv(x) {
+        Ok(m) => m,
+        Err(e) => return Err(fail("stage=to_value error".into(), e)),
+    };
+    if got != expected {
+        let d = crate::model::mv_diff(&expected, &got, &crate::model::exact);
+        return Err(fail(
+            format!("stage=shape kind={}", d.as_ref().map_or("?".to_string(), |d| d.0.clone())),
+            format!("{:?} serializes to {} but the documented shape (one cell per entry, in order) is {}", x, short(&got), short(&expected)),
+        ));
+    }
+    Ok(())
+}
+
+fn check_alike(case: &AlikeCase) -> CaseResult {
+    use std::collections::BTreeMap;
+    let slots: BTreeMap<Slot, i16> = case.iter().map(|(k, g, v)| (Slot { name: format!("n{}", k), generation: *g }, *v)).collect();
+    let ids: BTreeMap<Id, i16> = case
+        .iter()
+        .map(|(k, g, v)| {
+            (
+                match g {
+                    0 => Id::Short(*k),
+                    1 => Id::Long(*k as u64),
+                    _ => Id::Name(format!("n{}", k)),
+                },
+                *v,
+            )
+        })
+        .collect();
+    let entries: Vec<(u8, i16)> = case.iter().map(|(k, _, v)| (*k, *v)).collect();
+    check_shape_only("BTreeMap<Slot,i16>", &slots, case)?;
+    check_shape_only("BTreeMap<Id,i16>", &ids, case)?;
+    check_shape_only("Entries", &Entries(entries.clone()), case)?;
+    check_shape_only("EntriesKv", &EntriesKv(entries.clone()), case)?;
+    check_shape_only("Vec<BTreeMap<Slot,i16>>", &vec![slots.clone(), slots.clone()], case)?;
+    let mut keys: Vec<u8> = case.iter().map(|c| c.0).collect();
+    keys.sort();
+    let repeated = keys.windows(2).any(|w| w[0] == w[1]);
+    Ok(Eval::new(case.len() > 1, digest_of(case)).class(if repeated { "alike:keys-serialize-equal" } else { "alike:all-distinct" }))
+}
+
 struct Run<'a> {
     ctx: &'a mut Ctx,
     cases: u32,
@@ -144,10 +241,11 @@ fn run(ctx: &mut Ctx) {
     let tier = ctx.tier;
     let mut v = Run { cases: tier.pick(150, 10_000), ctx };
     for_each_type(&mut v);
+    ctx.run_prop("alike-keys", tier.pick(3000, 100_000), g_alike(), check_alike);
     let x = (vec![1u8, 2], (3i8, 4i8));
     ctx.add_sample("shape", json!({"type": "(Vec<u8>,(i8,i8))", "documented": serde_lexpr::to_string(&x).unwrap_or_default(), "flipped node 0": "((1 2) #(3 4)) / #(#(1 2) #(3 4))", "improper": "#((1 2 . 5) #(3 4))"}));
     ctx.add_sample("shape", json!({"type": "E", "documented": [serde_lexpr::to_string(&E::Unit).unwrap_or_default(), serde_lexpr::to_string(&E::New(1)).unwrap_or_default(), serde_lexpr::to_string(&E::Tup(1, "a".into())).unwrap_or_default(), serde_lexpr::to_string(&E::St { foo: true, bar: 2 }).unwrap_or_default()]}));
-    ctx.required_classes = vec!["E", "Tree", "Holder", "Tup3", "Nested", "alt-encodings:checked"];
+    ctx.required_classes = vec!["E", "Tree", "Holder", "Tup3", "Nested", "alt-encodings:checked", "alike:keys-serialize-equal"];
 }
 
 struct Replay<'a> {
@@ -167,6 +265,10 @@ impl<'a> TypeVisitor for Replay<'a> {
 }
 
 fn replay(_sub: &str, case: &Json) -> Option<CaseResult> {
+    if let Some(a) = case.get("alike") {
+        let c: AlikeCase = serde_json::from_value(a.clone()).ok()?;
+        return Some(check_alike(&c));
+    }
     let name = case.get("type")?.as_str()?.to_string();
     let mut r = Replay { name: &name, case, out: None };
     for_each_type(&mut r);
